@@ -1,8 +1,622 @@
-//! placeholder: this component is not built yet
-use crate::common::*;
+//! C18 — the real `trias` executable on generated projects, its `.uf2` output read back by the independent
+//! reader of `uf2.rs` (oracle: exactly the statement of C18, expected image computed from the generated
+//! program), and compared with the Lean model `Trion.Trias.post` applied to the expected segment list.
+use std::collections::BTreeMap;
+use std::path::{Path, PathBuf};
+use std::process::Command;
 
-pub fn run(id: &str, cx: &mut Cx)
+use crate::common::*;
+use crate::uf2::read_uf2;
+
+const INSTRS: [(&str, &[u8]); 10] = [
+	("NOP;", &[0x00, 0xBF]),
+	("MOVS R1, 0x42;", &[0x42, 0x21]),
+	("BX LR;", &[0x70, 0x47]),
+	("PUSH {R0, LR};", &[0x01, 0xB5]),
+	("BKPT 1;", &[0x01, 0xBE]),
+	("ADD R0, R0, R1;", &[0x08, 0x44]),
+	("SEV;", &[0x40, 0xBF]),
+	("WFI;", &[0x30, 0xBF]),
+	("DMB SY;", &[0xBF, 0xF3, 0x5F, 0x8F]),
+	("UDF.W 0x1234;", &[0xF1, 0xF7, 0x34, 0xA2]),
+];
+
+#[derive(Clone, Debug)]
+enum It
 {
-	cx.report.notes.push(format!("component for {id} not implemented"));
-	cx.report.oracle_fail("-", "harness component not implemented");
+	/// a statement with the bytes it emits
+	Stmt(String, Vec<u8>),
+	/// `.dfile "<name>";`
+	File(String, Vec<u8>),
+	/// `.include "<name>";` of a file holding these items
+	Include(String, Vec<It>),
+	/// `.du32 r<k>;` — the start address of region `k` (possibly a forward reference)
+	Ref(usize),
+}
+
+impl It
+{
+	fn size(&self) -> usize
+	{
+		match self
+		{
+			It::Stmt(_, b) | It::File(_, b) => b.len(),
+			It::Include(_, v) => v.iter().map(|i| i.size()).sum(),
+			It::Ref(..) => 4,
+		}
+	}
+}
+
+#[derive(Clone, Debug)]
+struct Region
+{
+	addr: u64,
+	items: Vec<It>,
+}
+
+impl Region
+{
+	fn size(&self) -> usize {self.items.iter().map(|i| i.size()).sum()}
+}
+
+#[derive(Clone, Debug, PartialEq)]
+enum Expect
+{
+	/// assembles; the output is determined by the image
+	Image,
+	/// assembly itself fails (diagnostics), no output
+	AsmFails(&'static str),
+}
+
+struct Gen
+{
+	rng: Rng,
+	nfile: usize,
+}
+
+impl Gen
+{
+	fn name(&mut self, ext: &str) -> String
+	{
+		self.nfile += 1;
+		format!("f{}.{}", self.nfile, ext)
+	}
+
+	fn bytes(&mut self, n: usize) -> Vec<u8>
+	{
+		let mode = self.rng.below(5);
+		(0..n).map(|_| match mode {0 => 0, 1 => 0xFF, _ => self.rng.next() as u8}).collect()
+	}
+
+	/// one item of at most `max` bytes (`max ≥ 1`)
+	fn item(&mut self, max: usize, depth: usize, nregions: usize, top: bool) -> It
+	{
+		loop
+		{
+			match self.rng.below(11)
+			{
+				0 => {let v = self.rng.next() as u8; return It::Stmt(format!(".du8 {};", v), vec![v]);},
+				1 if max >= 2 => {let v = self.rng.next() as u16; return It::Stmt(format!(".du16 0x{:X};", v), v.to_le_bytes().to_vec());},
+				2 if max >= 4 => {let v = self.rng.next() as u32; return It::Stmt(format!(".du32 {};", v), v.to_le_bytes().to_vec());},
+				3 =>
+				{
+					let n = 1 + self.rng.below(max.min(40) as u64) as usize;
+					let b = self.bytes(n);
+					let mut s = String::new();
+					for (i, x) in b.iter().enumerate()
+					{
+						if i > 0 && self.rng.chance(1, 6) {s.push(' ');}
+						if self.rng.chance(1, 2) {s.push_str(&format!("{x:02x}"));} else {s.push_str(&format!("{x:02X}"));}
+					}
+					return It::Stmt(format!(".dhex \"{s}\";"), b);
+				},
+				4 =>
+				{
+					let n = 1 + self.rng.below(max.min(24) as u64) as usize;
+					let alphabet = b"abcxyzABC 0123456789_-+*/.,:;!?()[]{}<>=#$%&@^~|";
+					let b: Vec<u8> = (0..n).map(|_| *self.rng.pick(alphabet)).collect();
+					return It::Stmt(format!(".dstr \"{}\";", String::from_utf8(b.clone()).unwrap()), b);
+				},
+				5 =>
+				{
+					let lim = if self.rng.chance(1, 4) {700} else {30};
+					let n = 1 + self.rng.below(max.min(lim) as u64) as usize;
+					let b = self.bytes(n);
+					return It::File(self.name("bin"), b);
+				},
+				6 if depth < 2 =>
+				{
+					let k = 1 + self.rng.below(3) as usize;
+					let mut v = Vec::new();
+					let mut left = max;
+					for _ in 0..k
+					{
+						if left == 0 {break;}
+						let it = self.item(left, depth + 1, nregions, false);
+						left -= it.size();
+						v.push(it);
+					}
+					return It::Include(self.name("asm"), v);
+				},
+				7 | 8 =>
+				{
+					let (t, b) = *self.rng.pick(&INSTRS);
+					if b.len() <= max {return It::Stmt(t.to_owned(), b.to_vec());}
+				},
+				9 if top && max >= 4 && nregions > 0 => return It::Ref(self.rng.below(nregions as u64) as usize),
+				_ => (),
+			}
+		}
+	}
+
+	/// items emitting exactly `len` bytes
+	fn items_exact(&mut self, len: usize, nregions: usize) -> Vec<It>
+	{
+		let mut v = Vec::new();
+		let mut left = len;
+		while left > 0
+		{
+			let it = self.item(left, 0, nregions, true);
+			left -= it.size();
+			v.push(it);
+		}
+		v
+	}
+}
+
+struct Case
+{
+	regions: Vec<Region>,
+	/// order of the regions in the source file
+	order: Vec<usize>,
+	expect: Expect,
+	/// extra text appended to the main file (used by failing programs)
+	tail: String,
+	sentinel: Option<Vec<u8>>,
+	shape: &'static str,
+}
+
+fn render_items(items: &[It], addrs: &[u64], files: &mut Vec<(String, Vec<u8>)>, sep: &str) -> String
+{
+	let mut s = String::new();
+	for it in items
+	{
+		match it
+		{
+			It::Stmt(t, _) => s.push_str(t),
+			It::File(name, b) => {files.push((name.clone(), b.clone())); s.push_str(&format!(".dfile \"{name}\";"));},
+			It::Include(name, v) =>
+			{
+				let inner = render_items(v, addrs, files, sep);
+				files.push((name.clone(), inner.into_bytes()));
+				s.push_str(&format!(".include \"{name}\";"));
+			},
+			It::Ref(k) => s.push_str(&format!(".du32 rgn_{k};")),
+		}
+		s.push_str(sep);
+	}
+	s
+}
+
+fn emit_bytes(items: &[It], addrs: &[u64], out: &mut Vec<u8>)
+{
+	for it in items
+	{
+		match it
+		{
+			It::Stmt(_, b) | It::File(_, b) => out.extend_from_slice(b),
+			It::Include(_, v) => emit_bytes(v, addrs, out),
+			It::Ref(k) => out.extend_from_slice(&(addrs[*k] as u32).to_le_bytes()),
+		}
+	}
+}
+
+/// independent bit-serial CRC-32/MPEG-2
+fn crc_mpeg2(data: &[u8]) -> u32
+{
+	let mut s = 0xFFFF_FFFFu32;
+	for &b in data
+	{
+		s ^= (b as u32) << 24;
+		for _ in 0..8 {s = if s & 0x8000_0000 != 0 {(s << 1) ^ 0x04C1_1DB7} else {s << 1};}
+	}
+	s
+}
+
+fn gen_case(seed: u64) -> Case
+{
+	let mut g = Gen{rng: Rng(seed), nfile: 0};
+	let shape_id = g.rng.below(16);
+	let mut expect = Expect::Image;
+	let mut tail = String::new();
+	let mut regions: Vec<Region> = Vec::new();
+	let shape: &'static str;
+	// region lengths are chosen first, then the layout places them
+	let small = |g: &mut Gen| 1 + g.rng.below(60) as usize;
+	match shape_id
+	{
+		0 | 1 =>
+		{
+			shape = "same page";
+			let page = (g.rng.below(1 << 24) << 8).min(0xFFFF_FF00);
+			let l1 = small(&mut g).min(100);
+			let o1 = g.rng.below(256 - l1 as u64 - 2);
+			let end1 = o1 + l1 as u64;
+			let gap = 1 + g.rng.below((256 - end1 - 1).max(1));
+			let o2 = (end1 + gap).min(255);
+			let lim2 = if g.rng.chance(1, 3) {400} else {60};
+			let l2 = 1 + g.rng.below((256 - o2).min(lim2)) as usize;
+			regions.push(Region{addr: page + o1, items: Vec::new()});
+			regions.push(Region{addr: page + o2, items: Vec::new()});
+			let n = regions.len();
+			regions[0].items = g.items_exact(l1, n);
+			regions[1].items = g.items_exact(l2.min((0x1_0000_0000u64 - (page + o2)) as usize), n);
+		},
+		2 | 3 =>
+		{
+			shape = "adjacent pages";
+			let page = (g.rng.below((1 << 24) - 4) << 8).min(0xFFFF_FD00);
+			// first region ends at offset e (exclusive) of page, second starts at offset o of the next page
+			let e = match g.rng.below(4) {0 => 256, 1 => 255, _ => 1 + g.rng.below(256)};
+			let lim1 = if g.rng.chance(1, 4) {e} else {40};
+			let l1 = 1 + g.rng.below(e.min(lim1)) as usize;
+			let o = match g.rng.below(4) {0 => 0, 1 => 1, 2 => 255, _ => g.rng.below(256)};
+			let l2 = small(&mut g) + if g.rng.chance(1, 4) {300} else {0};
+			regions.push(Region{addr: page + e - l1 as u64, items: Vec::new()});
+			regions.push(Region{addr: page + 256 + o, items: Vec::new()});
+			regions[0].items = g.items_exact(l1, 2);
+			regions[1].items = g.items_exact(l2, 2);
+		},
+		4 | 5 =>
+		{
+			shape = "far apart";
+			let n = 2 + g.rng.below(4) as usize;
+			let mut a = g.rng.below(1 << 20);
+			for _ in 0..n
+			{
+				let l = small(&mut g);
+				regions.push(Region{addr: a, items: Vec::new()});
+				a += l as u64 + (1 << 12) + g.rng.below(1 << 29);
+				if a + 4096 > 0xFFFF_FFFF {break;}
+			}
+			let n = regions.len();
+			let mut end = 0;
+			for k in 0..n
+			{
+				let l = small(&mut g);
+				regions[k].addr = regions[k].addr.max(end);
+				regions[k].items = g.items_exact(l, n);
+				end = regions[k].addr + l as u64 + 300;
+			}
+		},
+		6 | 7 | 8 =>
+		{
+			shape = "flash boot sector";
+			let l = match g.rng.below(10)
+			{
+				0 => 1, 1 => 251, 2 | 3 => 252, 4 => 253, 5 => 256, 6 => 257 + g.rng.below(300) as usize,
+				_ => 1 + g.rng.below(252) as usize,
+			};
+			let before = if g.rng.chance(1, 5) {1 + g.rng.below(40)} else {0};
+			regions.push(Region{addr: 0x1000_0000 - before, items: Vec::new()});
+			let mut lens = vec![l + before as usize];
+			match g.rng.below(8)
+			{
+				0 =>
+				{
+					// data inside the checksum word
+					let a = 0x1000_00FCu64 + g.rng.below(4);
+					if a >= 0x1000_0000 + l as u64 {regions.push(Region{addr: a, items: Vec::new()}); lens.push(1 + g.rng.below(3) as usize);}
+				},
+				1 | 2 =>
+				{
+					let a = 0x1000_0100u64 + match g.rng.below(3) {0 => 0, 1 => 1, _ => g.rng.below(256)};
+					if a > 0x1000_0000 + l as u64 {regions.push(Region{addr: a, items: Vec::new()}); lens.push(small(&mut g));}
+				},
+				3 =>
+				{
+					// a second region between the code and the checksum word
+					let a = 0x1000_0000u64 + l as u64 + 1 + g.rng.below(8);
+					if a < 0x1000_00FA {regions.push(Region{addr: a, items: Vec::new()}); lens.push(1 + g.rng.below(0x1000_00FC - a) as usize);}
+				},
+				_ => (),
+			}
+			if g.rng.chance(1, 4) {regions.push(Region{addr: 0x2000_0000 + g.rng.below(512), items: Vec::new()}); lens.push(small(&mut g));}
+			let n = regions.len();
+			for k in 0..n {regions[k].items = g.items_exact(lens[k], n);}
+		},
+		9 | 10 =>
+		{
+			shape = "top of the address space";
+			let lim = if g.rng.chance(1, 3) {600} else {255};
+			let l = 1 + g.rng.below(lim) as usize;
+			let slack = match g.rng.below(3) {0 => 0, 1 => 1, _ => g.rng.below(200)};
+			let a = 0x1_0000_0000u64 - l as u64 - slack;
+			if g.rng.chance(1, 2) {regions.push(Region{addr: g.rng.below(1 << 30), items: Vec::new()});}
+			regions.push(Region{addr: a, items: Vec::new()});
+			let n = regions.len();
+			if n == 2 {let l0 = small(&mut g); regions[0].items = g.items_exact(l0, n);}
+			regions[n - 1].items = g.items_exact(l, n);
+		},
+		11 | 12 | 13 =>
+		{
+			shape = "mixed regions";
+			let n = 1 + g.rng.below(6) as usize;
+			let mut a = match g.rng.below(4)
+			{
+				0 => g.rng.below(600),
+				1 => 0x1000_0000 + g.rng.below(3) * 0x100,
+				2 => 0x2000_0000 + g.rng.below(1 << 12),
+				_ => g.rng.below(0xFFFF_0000),
+			};
+			let mut lens = Vec::new();
+			for _ in 0..n
+			{
+				let l = if g.rng.chance(1, 6) {200 + g.rng.below(500) as usize} else {small(&mut g)};
+				if a + l as u64 > 0x1_0000_0000 {break;}
+				regions.push(Region{addr: a, items: Vec::new()});
+				lens.push(l);
+				let end = a + l as u64;
+				let gap = match g.rng.below(8)
+				{
+					0 => 0,                                  // touching
+					1 => 1,
+					2 => (256 - end % 256) % 256,             // next starts on the page boundary
+					3 => (256 - end % 256) % 256 + 1,
+					4 => g.rng.below(256),
+					5 => 256 + g.rng.below(512),
+					6 => (256 - end % 256) % 256 + 255,
+					_ => g.rng.below(1 << 16),
+				};
+				a = end + gap;
+			}
+			let n = regions.len();
+			for k in 0..n {regions[k].items = g.items_exact(lens[k], n);}
+		},
+		_ =>
+		{
+			shape = "failing program";
+			let l = small(&mut g);
+			let a = g.rng.below(0xFFFF_0000);
+			regions.push(Region{addr: a, items: Vec::new()});
+			regions[0].items = g.items_exact(l, 1);
+			match g.rng.below(8)
+			{
+				0 => {tail = format!(".addr 0x{:X}; .du8 1;", a + g.rng.below(l as u64)); expect = Expect::AsmFails("region placed on occupied addresses");},
+				1 => {tail = ".du32 nowhere_defined;".to_owned(); expect = Expect::AsmFails("undefined constant");},
+				2 => {tail = ".du8 1 2;".to_owned(); expect = Expect::AsmFails("syntax error");},
+				3 => {tail = ".include \"missing_file.asm\";".to_owned(); expect = Expect::AsmFails("missing include file");},
+				4 => {tail = ".du8 256;".to_owned(); expect = Expect::AsmFails("value out of range");},
+				5 => {tail = ".addr 0xFFFFFFFE; .du32 1;".to_owned(); expect = Expect::AsmFails("write past the end of the address space");},
+				6 => {tail = ".dfile \"missing_file.bin\";".to_owned(); expect = Expect::AsmFails("missing data file");},
+				_ => {regions.clear(); tail = if g.rng.chance(1, 2) {String::new()} else {".const unused, 5;".to_owned()};},   // no output at all
+			}
+		},
+	}
+	let n = regions.len();
+	let mut order: Vec<usize> = (0..n).collect();
+	for i in (1..n).rev() {let j = g.rng.below(i as u64 + 1) as usize; order.swap(i, j);}
+	let sentinel = if g.rng.chance(2, 5) {let n = g.rng.below(3000) as usize; Some(g.bytes(n).into_iter().map(|b| b | 1).collect())} else {None};
+	Case{regions, order, expect, tail, sentinel, shape}
+}
+
+/// the program's own bytes, address → value
+fn program_image(c: &Case) -> BTreeMap<u64, u8>
+{
+	let addrs: Vec<u64> = c.regions.iter().map(|r| r.addr).collect();
+	let mut img = BTreeMap::new();
+	for r in &c.regions
+	{
+		let mut b = Vec::new();
+		emit_bytes(&r.items, &addrs, &mut b);
+		for (i, x) in b.iter().enumerate() {img.insert(r.addr + i as u64, *x);}
+	}
+	img
+}
+
+fn segments(img: &BTreeMap<u64, u8>) -> Vec<(u64, Vec<u8>)>
+{
+	let mut v: Vec<(u64, Vec<u8>)> = Vec::new();
+	for (&a, &b) in img
+	{
+		match v.last_mut()
+		{
+			Some((f, d)) if *f + d.len() as u64 == a => d.push(b),
+			_ => v.push((a, vec![b])),
+		}
+	}
+	v
+}
+
+struct RunOut
+{
+	file: Option<Vec<u8>>,
+	stderr: String,
+	status: String,
+}
+
+fn run_trias(dir: &Path, c: &Case) -> RunOut
+{
+	let _ = std::fs::remove_dir_all(dir);
+	std::fs::create_dir_all(dir).unwrap();
+	let addrs: Vec<u64> = c.regions.iter().map(|r| r.addr).collect();
+	let mut files = Vec::new();
+	let mut main = String::new();
+	for &k in &c.order
+	{
+		let r = &c.regions[k];
+		main.push_str(&format!(".addr 0x{:X};\nrgn_{k}:\n", r.addr));
+		main.push_str(&render_items(&r.items, &addrs, &mut files, "\n"));
+	}
+	main.push_str(&c.tail);
+	main.push('\n');
+	for (name, data) in &files {std::fs::write(dir.join(name), data).unwrap();}
+	std::fs::write(dir.join("main.asm"), &main).unwrap();
+	let out_path: PathBuf = dir.join("out.uf2");
+	if let Some(s) = &c.sentinel {std::fs::write(&out_path, s).unwrap();}
+	let out = Command::new(repo_bin("trias")).arg("main.asm").arg("out.uf2").current_dir(dir).output().expect("cannot run trias (./check builds it when needs_bins is true)");
+	let file = std::fs::read(&out_path).ok();
+	RunOut{file, stderr: String::from_utf8_lossy(&out.stderr).into_owned(), status: format!("{:?}", out.status.code())}
+}
+
+/// the statement of C18 on the observed outcome
+fn oracle(c: &Case, img: &BTreeMap<u64, u8>, run: &RunOut) -> Result<(), String>
+{
+	let boot = img.contains_key(&0x1000_0000);
+	let crc_hit = boot && (0x1000_00FCu64..=0x1000_00FF).any(|a| img.contains_key(&a));
+	let must_fail = c.expect != Expect::Image || img.is_empty() || crc_hit;
+	if must_fail
+	{
+		// no output file created or modified
+		return match (&c.sentinel, &run.file)
+		{
+			(None, None) => Ok(()),
+			(None, Some(f)) => Err(format!("the program must be refused ({}) but an output file of {} bytes was created", if crc_hit {"data in the checksum word"} else if img.is_empty() {"no output"} else {"assembly fails"}, f.len())),
+			(Some(s), Some(f)) if s == f => Ok(()),
+			(Some(..), Some(..)) => Err("the program must be refused but the existing output file was modified".to_owned()),
+			(Some(..), None) => Err("the program must be refused but the existing output file was removed".to_owned()),
+		};
+	}
+	let file = match &run.file
+	{
+		None => return Err(format!("generated program was expected to assemble but no output file exists; stderr: {}", run.stderr.lines().next().unwrap_or(""))),
+		Some(f) => f,
+	};
+	if let Some(s) = &c.sentinel
+	{
+		if s == file {return Err(format!("generated program was expected to assemble but the pre-existing file is unchanged; stderr: {}", run.stderr.lines().next().unwrap_or("")));}
+	}
+	let blocks = read_uf2(file)?;
+	let n = blocks.len();
+	let mut pages: BTreeMap<u64, &crate::uf2::RBlock> = BTreeMap::new();
+	for (k, b) in blocks.iter().enumerate()
+	{
+		if b.psize != 256 {return Err(format!("block {k}: payload size {}", b.psize));}
+		if b.addr % 256 != 0 {return Err(format!("block {k}: address {:08x} is not 256-aligned", b.addr));}
+		if b.no as usize != k || b.total as usize != n {return Err(format!("block {k}: numbered {} of {}, file has {n} blocks", b.no, b.total));}
+		if b.fam != 0xE48B_FF56 || b.flags != 0x2000 {return Err(format!("block {k}: flags {:08x} family {:08x}", b.flags, b.fam));}
+		if pages.insert(b.addr as u64, b).is_some() {return Err(format!("two blocks target page {:08x}", b.addr));}
+		if b.data[256..].iter().any(|&x| x != 0) {return Err(format!("block {k}: data area beyond the payload is not zero"));}
+	}
+	// expected image: program bytes, the checksum word, zero elsewhere in touched pages, nothing else
+	let mut want: BTreeMap<u64, u8> = img.clone();
+	if boot
+	{
+		let temp: Vec<u8> = (0..252u64).map(|i| *img.get(&(0x1000_0000 + i)).unwrap_or(&0)).collect();
+		let crc = crc_mpeg2(&temp);
+		for (i, x) in crc.to_le_bytes().iter().enumerate() {want.insert(0x1000_00FC + i as u64, *x);}
+	}
+	let mut touched: Vec<u64> = want.keys().map(|a| a & !0xFF).collect();
+	touched.dedup();
+	let got_pages: Vec<u64> = pages.keys().copied().collect();
+	if touched != got_pages
+	{
+		let missing: Vec<String> = touched.iter().filter(|p| !pages.contains_key(p)).map(|p| format!("{p:08x}")).collect();
+		let extra: Vec<String> = got_pages.iter().filter(|p| !touched.contains(p)).map(|p| format!("{p:08x}")).collect();
+		return Err(format!("pages in the file differ from the pages the program touches: missing [{}], extra [{}]", missing.join(","), extra.join(",")));
+	}
+	for (&p, b) in &pages
+	{
+		for j in 0..256u64
+		{
+			let w = *want.get(&(p + j)).unwrap_or(&0);
+			if b.data[j as usize] != w
+			{
+				let what = if img.contains_key(&(p + j)) {"program byte"} else if want.contains_key(&(p + j)) {"checksum byte"} else {"padding byte"};
+				return Err(format!("address {:08x} ({what}) reads {:02x}, expected {:02x}", p + j, b.data[j as usize], w));
+			}
+		}
+	}
+	Ok(())
+}
+
+fn check_case(cx: &mut Cx, seed: u64)
+{
+	let input = format!("gen {seed:016x}");
+	let c = gen_case(seed);
+	let img = program_image(&c);
+	let dir = cx.work.join("trias");
+	let run = run_trias(&dir, &c);
+	cx.report.hit(&format!("shape: {}", c.shape));
+	cx.report.hit(&format!("exit status {}", run.status));
+	if c.sentinel.is_some() {cx.report.hit("pre-existing output file");}
+	// canonical outcome of the implementation
+	let produced = match (&run.file, &c.sentinel) {(Some(f), Some(s)) => f != s, (Some(..), None) => true, (None, _) => false};
+	let imp = if produced
+	{
+		let f = run.file.as_ref().unwrap();
+		format!("ok len={} fnv={:016x}", f.len(), fnv(FNV_INIT, f))
+	}
+	else if run.stderr.contains("Checksum would overwrite existing data") {"err:crc-overwrite".to_owned()}
+	else if run.stderr.is_empty() {"err:empty".to_owned()}
+	else {"asm-failed".to_owned()};
+	cx.report.hit(&format!("outcome: {}", if produced {"file written"} else {&imp}));
+	cx.report.case(if produced {Some(&imp)} else {None});
+	if c.expect == Expect::Image
+	{
+		let segs = segments(&img);
+		let mut req = "trias post".to_owned();
+		for (f, d) in &segs {req.push_str(&format!(" {:x}:{}", f, hex(d)));}
+		let reply = cx.model.ask(&req);
+		if !cx.report.compare("model.trias.post", &input, &reply, &imp) && cx.report.disagreements.len() <= 3
+		{
+			cx.report.notes.push(format!("{input}: segments {}", segs.iter().map(|(f, d)| format!("{f:08x}+{}", d.len())).collect::<Vec<_>>().join(" ")));
+			cx.report.notes.push(format!("{input}: stderr {}", run.stderr.lines().take(3).collect::<Vec<_>>().join(" / ")));
+		}
+		// the Lean reader decodes the real file to the same blocks as the harness reader
+		if produced && seed % 8 == 0
+		{
+			let f = run.file.as_ref().unwrap();
+			if f.len() <= 4096
+			{
+				let lean = cx.model.ask(&format!("uf2 read {}", hex(f)));
+				let mine = match read_uf2(f)
+				{
+					Ok(bl) =>
+					{
+						let mut s = format!("n={}", bl.len());
+						for b in &bl {s.push_str(&format!(" | {:08x} {:08x} {} {} {} {:08x} {}", b.flags, b.addr, b.psize, b.no, b.total, b.fam, hex(&b.data)));}
+						s
+					},
+					Err(..) => "none".to_owned(),
+				};
+				cx.report.compare("model.uf2.read", &input, &lean, &mine);
+			}
+		}
+	}
+	if let Err(what) = oracle(&c, &img, &run) {cx.report.oracle_fail(input, what);}
+	if cx.report.samples.len() < 6 && produced
+	{
+		cx.report.sample(format!("{} [{}; {} regions, {} program bytes] -> {}", format!("gen {seed:016x}"), c.shape, c.regions.len(), img.len(), imp));
+	}
+}
+
+pub fn run(_id: &str, cx: &mut Cx)
+{
+	cx.report.rule = "generated projects on disk (main file with .addr regions in shuffled source order, region labels referenced by .du32 — also forward —, .du8/.du16/.du32/.dhex/.dstr, instructions, \
+.dfile and nested .include inputs) assembled by the real trias executable; region shapes forced: same page, adjacent pages (incl. ending on / starting at a page boundary), far apart, flash boot sector \
+(code lengths 1..252, 253+, data inside or next to the checksum word, region starting below 0x10000000), top of the address space (ending at 0xFFFFFFFF), mixed (touching, 1-byte gaps, page-boundary gaps), \
+failing programs (occupied address, undefined constant, syntax error, missing files, range error, address-space overflow, no output) with and without a pre-existing output file. \
+non-trivial = an output file was written; distinct = distinct output files".to_owned();
+	if !repo_bin("trias").exists()
+	{
+		cx.report.oracle_fail("-", format!("{} not built (props/C18.json needs_bins)", repo_bin("trias").display()));
+		return;
+	}
+	if let Some(input) = cx.replay.clone()
+	{
+		match input.strip_prefix("gen ").and_then(|s| u64::from_str_radix(s, 16).ok())
+		{
+			Some(seed) => check_case(cx, seed),
+			None => cx.report.oracle_fail(input, "unrecognised replay input"),
+		}
+		return;
+	}
+	let n = if cx.thorough() {20_000} else {1_500};
+	for _ in 0..n
+	{
+		let seed = cx.rng.next();
+		check_case(cx, seed);
+	}
+	let _ = std::fs::remove_dir_all(cx.work.join("trias"));
 }
